@@ -439,7 +439,11 @@ def do_check(prop, tier, seed, extra):
             if r.get("switches"):
                 interleavings.add(r["sched_hash"])
             if "sample" in r and len(samples) < 6 and r.get("nontrivial"):
-                samples.append({"batch": b.get("name"), "seed": r["seed"], "case": r["sample"], "faults": r.get("faults", {})})
+                smp = {"batch": b.get("name"), "seed": r["seed"], "case": r["sample"], "faults": r.get("faults", {})}
+                if "plan" in r and len(samples) < 2:
+                    lines = r["plan"].strip().split("\n")
+                    smp["plan"] = lines[:40] + (["... (%d more lines)" % (len(lines) - 40)] if len(lines) > 40 else [])
+                samples.append(smp)
             if r["status"] == "violation":
                 pref = rc_.get("oracles")
                 if pref and not any(r["viol"]["oracle"].startswith(x) for x in pref):
@@ -583,6 +587,7 @@ def do_check(prop, tier, seed, extra):
         "faults_fired": cov["faults_fired"],
         "probes": cov["probes"],
         "scheduler_steps": cov["steps"],
+        "simulated_time": "this code base has no clock or timer: simulated time is the number of scheduler steps / simulated operations (scheduler_steps)",
         "context_switches": cov["switches"],
         "distinct_interleavings": len(interleavings),
         "runs_per_hour": int(cov["evaluations"] / max(1e-9, time.time() - t0) * 3600),
